@@ -226,7 +226,9 @@ func cmdCheck(args []string) int {
 		}
 	}
 
-	timeout := 10
+	// per-obligation budget: every obligation of the unchanged tree discharges in well under 5 s on an idle machine;
+	// the budget leaves a factor of four for a loaded one (timeouts are wall-clock)
+	timeout := 20
 	if *tier == "thorough" {
 		timeout = 120
 	}
